@@ -603,14 +603,15 @@ static void install_guard() {
     sa.sa_sigaction = on_guard_segv; sa.sa_flags = SA_ONSTACK | SA_SIGINFO | SA_NODEFER;
     sigaction(SIGSEGV, &sa, &g_old_segv);
     struct rlimit rl;
-    if (getrlimit(RLIMIT_STACK, &rl) == 0) { rl.rlim_cur = 1u << 20; setrlimit(RLIMIT_STACK, &rl); }  // exhaust quickly; nothing legitimate here is deep
+    if (getrlimit(RLIMIT_STACK, &rl) == 0) { rl.rlim_cur = 256u << 10; setrlimit(RLIMIT_STACK, &rl); }  // exhaust quickly; nothing legitimate here is deep
 }
 static int xmatch_guarded(const RE* re, const U16& s) {
     if (sigsetjmp(g_jmp, 1) == 0) { g_armed = 1; int v = xmatch(re, s, nullptr, nullptr); g_armed = 0; return v; }
     return V_CRASH;
 }
 static void exec_matches(Ctx& c, const U16& pat, const std::vector<std::string>& opts, size_t NS, int8_t* v, bool guarded) {
-    for (size_t oi = 0; oi < opts.size(); oi++) {
+    bool crashed = false;
+    for (size_t oi = 0; oi < opts.size() && !crashed; oi++) {
         Compiled C;
         compile(C, pat, opts[oi].c_str());
         if (C.exc != EX_NONE) { memset(v + oi * NS, V_COMPILE_FAILED, NS); continue; }
@@ -618,7 +619,7 @@ static void exec_matches(Ctx& c, const U16& pat, const std::vector<std::string>&
         else for (size_t i = 0; i < NS; i++) {
             int r = xmatch_guarded(C.re, STR.s[i]);
             v[oi * NS + i] = (int8_t)r;
-            if (r == V_CRASH) { c.count("guarded:stack_exhaustions_caught"); break; }  // one witness per (AST, options); the remaining strings stay V_NOT_RUN
+            if (r == V_CRASH) { c.count("guarded:stack_exhaustions_caught"); crashed = true; break; }  // one witness per AST; everything after it stays V_NOT_RUN
         }
     }
 }
